@@ -6,7 +6,10 @@ Four parts (see coq/Props/C11.v for what is a theorem and what is not):
   (b) correspondence of the whole `parse` with Compiler/ParseMain.v on generated line sequences and
       on mutations of every .bard file of the repository, restricted to inputs that use only the
       constructs in ALLOWED_CONSTRUCTS (the block extractors are part B's; until they are merged the
-      model side stubs them out and the restriction keeps such inputs away);
+      model side stubs them out and the restriction keeps such inputs away - which constructs an
+      input uses is observed on the real run, by wrapping the four extractor names in core's
+      namespace; LINK_BLOCKS / env C11_LINK_BLOCKS=1 links part B's extractors and lifts the
+      restriction);
   (c) the direct totality oracle on the implementation (model independent, ALL constructs): compile
       every generated / mutated input under an alarm; anything but a dict, SyntaxError or ValueError is
       reported;
@@ -774,6 +777,7 @@ def pinned_inputs():
         ("call-body-not-a-call", ":: A\n-> T(\"(\") + (\")\")\n:: T(x)\nhi"),
         ("call-body-not-a-call:choice", ":: A\n+ [go] -> T(\"(\") + (\")\")\n:: T(x)\nhi"),
         ("legacy-if-without-close", ":: A\n<<if x\nt\n<<endif>>"),
+        ("input-type-attribute-in-block", ":: Start\n@if True:\n@input type=\"x\" name=\"n\"\n@endif"),
     ]
 
 
